@@ -490,6 +490,179 @@ def stream_loads(ctx: Ctx) -> Stream:
 
 
 # ---------------------------------------------------------------------------------------------
+# text level: json.dumps(..., separators=(',', ':')) / json.loads vs printJson / parseJson
+
+
+class Skip(Exception):
+	"""the real decoder produced a value outside the model (float, lone surrogate)"""
+
+
+class Pairs(list):
+	"""object members as the real decoder saw them, in order, duplicates kept (object_pairs_hook)"""
+
+
+def show_pairs(v: Any) -> str:
+	out: list[str] = []
+
+	def go(x: Any) -> None:
+		if x is None:
+			out.append('n')
+		elif x is True:
+			out.append('T')
+		elif x is False:
+			out.append('F')
+		elif isinstance(x, int):
+			out.append(f'i{x}')
+		elif isinstance(x, float):
+			raise Skip('float')
+		elif isinstance(x, str):
+			if any(0xD800 <= ord(ch) <= 0xDFFF for ch in x):
+				raise Skip('surrogate')
+			out.append(f's{hx(x)}')
+		elif isinstance(x, Pairs):
+			out.append('{')
+			for k, y in x:
+				go(k)
+				out[-1] = out[-1][1:]  # key: bare hex
+				go(y)
+			out.append('}')
+		elif isinstance(x, list):
+			out.append('[')
+			for y in x:
+				go(y)
+			out.append(']')
+		else:
+			raise AssertionError(type(x))
+
+	go(v)
+	return ' '.join(out)
+
+
+def real_parse(text: str) -> str:
+	try:
+		v = json.loads(text, object_pairs_hook=Pairs)
+	except ValueError:
+		return 'none'
+	return 'ok ' + show_pairs(v)
+
+
+DAMAGE_CHARS = '"\\{}[],:0123456789abcdefuntl-/'
+
+
+def damaged(rng: random.Random, text: str, n: int) -> list[str]:
+	"""proper prefixes, single deletions, substitutions and duplications of a printed text"""
+	out = []
+	if not text:
+		return out
+	for _ in range(n):
+		r = rng.random()
+		i = rng.randrange(len(text))
+		if r < 0.4:
+			out.append(text[:i])
+		elif r < 0.65:
+			out.append(text[:i] + text[i + 1:])
+		elif r < 0.9:
+			out.append(text[:i] + rng.choice(DAMAGE_CHARS) + text[i + 1:])
+		else:
+			out.append(text[:i] + text[i] + text[i:])
+	return out
+
+
+JSON_STRINGS = ['', 'a', 'name', 'é', 'あい', '\U0001F600x', '"', '\\', '/', '\n\r\t\b\f', '\x00\x1f', '\x7f', '\x80\xff', '\u2028\u2029', '\ud7ff\ue000', '\uffff', '\U00010000', '\U0010FFFF', ' sp ', '\\u0041', '"quoted"', '{}[],:']
+
+
+def gen_json_value(rng: random.Random, depth: int) -> Any:
+	r = rng.random()
+	if depth <= 0 or r < 0.45:
+		k = rng.random()
+		if k < 0.12:
+			return None
+		if k < 0.2:
+			return rng.choice([True, False])
+		if k < 0.5:
+			return rng.choice([0, -0, 1, -1, 9, 10, -10, 100, 2 ** 31, -(2 ** 63), 10 ** 20, rng.randint(-500, 500)])
+		return rng.choice(JSON_STRINGS) + (rng.choice(JSON_STRINGS) if rng.random() < 0.3 else '')
+	if r < 0.7:
+		xs = [gen_json_value(rng, depth - 1) for _ in range(rng.randint(0, 3))]
+		return xs if rng.random() < 0.8 else tuple(xs)
+	d: dict[str, Any] = {}
+	for _ in range(rng.randint(0, 3)):
+		d[rng.choice(JSON_STRINGS)] = gen_json_value(rng, depth - 1)
+	return d
+
+
+def has_outer_whitespace(text: str) -> bool:
+	"""insignificant white space (outside string literals) is outside the model: such damaged texts are not compared"""
+	in_str = False
+	i = 0
+	while i < len(text):
+		ch = text[i]
+		if in_str:
+			if ch == '\\':
+				i += 1
+			elif ch == '"':
+				in_str = False
+		elif ch == '"':
+			in_str = True
+		elif ch in ' \t\n\r':
+			return True
+		i += 1
+	return False
+
+
+def text_ops(rng: random.Random, text: str, n_damage: int) -> tuple[list[str], list[str]]:
+	ops, real = [], []
+	for t in [text, *damaged(rng, text, n_damage)]:
+		if has_outer_whitespace(t):
+			continue
+		try:
+			r = real_parse(t)
+		except Skip:
+			continue
+		ops.append(f'parse\t{hx(t)}')
+		real.append(r)
+	return ops, real
+
+
+def stream_text(ctx: Ctx) -> Stream:
+	from rogw.tranp.implements.syntax.lark.entry import Serialization
+	rng = ctx.sub_rng('entry-text')
+	hist: dict[str, int] = {}
+	cases = []
+	trees_: list[tuple[str, Any]] = [(f'random#{i}', gen_lark(rng, 1 + i % 3, 1 + i % 4, False, hist)) for i in range(ctx.scale(120, 1500))]
+	app = common.MemApp(ctx.tmpdir())
+	import lark
+	for label, root in parse_all(app, gen_sources(ctx, rng, ctx.scale(12, 150), ctx.scale(2, 20))):
+		subs = [c for c in root.children if type(c) is lark.Tree and tree_size(c) <= 250]
+		for c in rng.sample(subs, min(len(subs), 3)):
+			trees_.append((label, c))
+	for label, t in trees_:
+		ops = [f'tree\t{lark_sexp(t)}', 'print', 'rttext']
+		real = [f'ok {tree_size(t)}']
+		try:
+			text = json.dumps(Serialization.dumps(t), separators=(',', ':'))
+			real.append('ok ' + hx(text.encode('utf-8')))
+		except Exception as e:  # noqa: BLE001
+			text = ''
+			real.append(exc_enum(e))
+		real.append(real_rt(t))
+		o2, r2 = text_ops(rng, text, ctx.scale(10, 14))
+		cases.append(({'kind': 'tree:' + label.split('#')[0].split(':')[0]}, ops + o2, real + r2))
+	for i in range(ctx.scale(250, 3000)):
+		v = gen_json_value(rng, 1 + i % 4)
+		text = json.dumps(v, separators=(',', ':'))
+		ops = [f'printv\t{show_val(v)}']
+		real = ['ok ' + hx(text.encode('utf-8'))]
+		o2, r2 = text_ops(rng, text, ctx.scale(8, 12))
+		cases.append(({'kind': 'value'}, ops + o2, real + r2))
+	st = common.correspond('entry-text', cases, 'entry', classify=lambda d: d['kind'])
+	st.histogram['parse-ops'] = sum(1 for c in cases for o in c[1] if o.startswith('parse'))
+	st.histogram['parse-accepted'] = sum(1 for c in cases for o, r in zip(c[1], c[2]) if o.startswith('parse') and r != 'none')
+	st.note = "the bytes EntryStored.save writes (json.dumps(dumps(t), separators=(',', ':')).encode()) vs printJson; json.loads vs parseJson on those texts and on damaged ones (proper prefixes, single deletions/substitutions/duplications); the same for random JSON values (all escape classes: quote, backslash, control, DEL, Latin-1, BMP, surrogate pairs; big and negative ints; tuples); decoder results with floats or lone surrogates are outside the model and skipped"
+	return st
+
+
+# ---------------------------------------------------------------------------------------------
 # search
 
 
@@ -543,6 +716,42 @@ def search_views(ctx: Ctx) -> SearchResult:
 		res.histogram[kind] = res.histogram.get(kind, 0) + 1
 		if len(res.samples) < 2:
 			res.samples.append({'tree': label, 'entries': tree_size(t)})
+	res.distinct = len(seen)
+	return res
+
+
+def search_truncation(ctx: Ctx) -> SearchResult:
+	"""A cache file cut short must be rejected by the real EntryStored.load (never silently give a tree)."""
+	from rogw.tranp.implements.syntax.lark.entry import EntryOfLark
+	from rogw.tranp.implements.syntax.lark.parser import EntryStored
+	rng = ctx.sub_rng('truncation')
+	res = SearchResult('every proper prefix of the bytes EntryStored.save writes is rejected by EntryStored.load')
+	hist: dict[str, int] = {}
+	app = common.MemApp(ctx.tmpdir())
+	trees_: list[tuple[str, Any]] = parse_all(app, gen_sources(ctx, rng, ctx.scale(20, 300), ctx.scale(2, 20)))
+	trees_ += [(f'random#{i}', gen_lark(rng, 1 + i % 4, 1 + i % 4, False, hist)) for i in range(ctx.scale(150, 2000))]
+	seen = set()
+	for label, t in trees_:
+		buf = io.BytesIO()
+		try:
+			EntryStored(EntryOfLark(t)).save(buf)
+		except Exception as e:  # noqa: BLE001
+			res.findings.append(Finding(key=f'store-raises:{exc_enum(e)}', what=f'storing {label} raises {exc_enum(e)}', replay={'tree': label, 'sexp': lark_sexp(t)[:20000]}))
+			continue
+		data = buf.getvalue()
+		seen.add(hash(data))
+		cuts = {0, 1, len(data) - 1, len(data) // 2, *(rng.randrange(len(data)) for _ in range(ctx.scale(12, 30)))}
+		for k in cuts:
+			res.cases += 1
+			try:
+				got = EntryStored.load(io.BytesIO(data[:k]))
+			except ValueError:
+				continue  # json.JSONDecodeError / UnicodeDecodeError: rejected
+			except Exception as e:  # noqa: BLE001
+				res.findings.append(Finding(key=f'truncated-cache-raises:{exc_enum(e)}', what=f'{label}: a cache file cut at byte {k}/{len(data)} raises {exc_enum(e)} instead of being rejected as invalid JSON', replay={'tree': label, 'cut': k, 'bytes': data[:k][-200:].decode('ascii', 'replace')}))
+				break
+			res.findings.append(Finding(key='truncated-cache-accepted', what=f'{label}: a cache file cut at byte {k}/{len(data)} loads as {type(got.entry.source).__name__}', replay={'tree': label, 'cut': k, 'bytes': data[:k][-200:].decode('ascii', 'replace')}))
+			break
 	res.distinct = len(seen)
 	return res
 
@@ -633,6 +842,12 @@ def search_nodes(ctx: Ctx) -> SearchResult:
 STATEMENTS = {
 	'view_rt': 'for every lark entry t (any meta state, any token positions, None slots): if dumps(t) succeeds then loads(json image of dumps(t)) succeeds and its EntryOfLark view equals the view of t, field by field, recursively',
 	'view_rt_direct': 'the same without the JSON step (loads(dumps(t)), tuples kept)',
+	'text_rt': "json.loads(json.dumps(j, separators=(',', ':'))) = j for every JSON value: parseJson (printJson j) = some j (strings of arbitrary Unicode scalar values, every integer)",
+	'view_rt_text': 'view_rt through the text: parsing the printed dump and loading it restores the same view',
+	'storeLoadText_eq': 'the cache path through the text equals the cache path on values',
+	'text_ascii': 'the written text is pure ASCII (encode(utf-8) is one byte per character)',
+	'truncated_rejected': 'no proper prefix of a printed object or array parses (a cache file cut short is rejected; cited by C05)',
+	'truncated_cache_rejected': 'the same for what EntryStored.save writes for a tree or a token',
 	'dumps_ok_iff': 'dumps(t) succeeds exactly when every source_map in the view of t can be read (fails only with AttributeError on a non-empty Meta lacking attributes — never produced by lark)',
 	'store_total': 'for trees whose non-empty metas carry all four attributes (all lark output) store→load always succeeds and preserves the view',
 	'store_total_partial': 'the guard is exact: store→load succeeds (and preserves the view) precisely on the well-formed trees',
@@ -646,18 +861,18 @@ STATEMENTS = {
 def run(ctx: Ctx) -> int:
 	proof = common.prove(ctx, PROP, leanchecker=ctx.thorough)
 	with ctx.timed('correspondence'):
-		streams = [stream_real(ctx), stream_random(ctx), stream_loads(ctx)]
+		streams = [stream_real(ctx), stream_random(ctx), stream_loads(ctx), stream_text(ctx)]
 	with ctx.timed('search'):
-		searches = [search_views(ctx), search_nodes(ctx)]
+		searches = [search_views(ctx), search_nodes(ctx), search_truncation(ctx)]
 	return common.finish(ctx, proof, streams, searches,
 		statements=STATEMENTS,
 		partial={
 			'proved': 'loads(json(dumps(T))) ≅ T field by field for every tree shape; everything computed from the Entry interface (paths, spans, quotations) is equal on restored and fresh trees',
-			'correspondence_only': 'the text level of JSON (json.dumps/json.load of the standard library) is executed, not modelled; node classes are functions of the Entry interface only (no code reads Entry.source except Serialization) — checked by the nodes search',
+			'correspondence_only': 'node classes are functions of the Entry interface only (no code reads Entry.source except Serialization) — checked by the nodes search',
 		},
 		assumptions=[
 			'names and token values are str, positions are None or int (what lark produces); other attribute types are outside the model',
-			'json.load(json.dumps(x)) is the JSON image of x (tuples→lists, None→null) for values made of dict/list/tuple/str/int/None with str keys',
+			"CPython's json encoder/decoder behave as modelled by printJson/parseJson (stream entry-text on every run); white space, floats, lone surrogates and duplicate keys are outside the model",
 			'downstream code observes a tree only through the Entry interface (grep: Entry.source is read only by Serialization/EntryStored)',
 		],
 		trusted=['lark.Tree / lark.Token / lark.tree.Meta attribute semantics (Tree.meta creates an empty Meta on demand)'])
